@@ -206,6 +206,17 @@ type vfhWorld struct {
 	script *vfhScript
 	tag    string
 	eps    map[string]*vfhEndpointState // "e1", "e2"
+	salt   int                          // choice of the members of the classes "empty" and "invalid" in this sequence
+	nth    int                          // symbols applied in this sequence
+	docs   []string                     // members served in this sequence
+	st     *vfStats
+}
+
+func vfhDocType(d vfDoc) string {
+	if d.JSON {
+		return "application/json"
+	}
+	return "application/yaml"
 }
 
 func (w *vfhWorld) newValid(l string) vfhOutcome {
@@ -222,6 +233,7 @@ func (w *vfhWorld) newValid(l string) vfhOutcome {
 func (w *vfhWorld) apply(sym int) string {
 	l := "e1"
 	var o vfhOutcome
+	w.nth++
 	switch sym {
 	case vfhFail:
 		return ""
@@ -235,13 +247,21 @@ func (w *vfhWorld) apply(sym int) string {
 			o = w.newValid(l)
 		}
 	case vfhEmpty:
-		o = vfhOutcome{kind: vfhEmpty, ctype: "application/yaml"}
+		prev := ""
+		if w.eps[l].cur.content != "" {
+			prev = w.eps[l].cur.body // the rule set served now
+		}
+		d := vfEmptyDoc(w.salt+w.nth, prev, w.st)
+		w.docs = append(w.docs, "empty:"+d.Name)
+		o = vfhOutcome{kind: vfhEmpty, ctype: vfhDocType(d), body: d.Data}
 	case vfhInvalid, vfhInvalid2:
 		if sym == vfhInvalid2 {
 			l = "e2"
 		}
 		w.eps[l].version++
-		o = vfhOutcome{kind: vfhInvalid, ctype: "application/yaml", body: vfInvalidDocs[w.eps[l].version%len(vfInvalidDocs)]}
+		d := vfInvalidDoc(w.salt+w.nth, w.st)
+		w.docs = append(w.docs, "invalid:"+d.Name)
+		o = vfhOutcome{kind: vfhInvalid, ctype: vfhDocType(d), body: d.Data}
 	case vfhUnsupported:
 		o = vfhOutcome{kind: vfhUnsupported, ctype: "text/plain", body: vfRuleSetYAML("unsupported")}
 	case vfh404:
@@ -320,11 +340,11 @@ func vfhEndpoints(baseURL string, paths ...string) ([]*ruleSetEndpoint, error) {
 func TestC18(t *testing.T) {
 	r := core.Begin("C18", "fault_enumeration")
 	r.Rule("http_endpoint: exhaustive sequences (length <=4 quick / <=5 thorough) over 13 symbols (endpoint 1: 200 new/unchanged/empty/invalid/unsupported type, 404, 500, " +
-		"connection refused, timeout; processor failure; endpoint 2: 200 new, 404, invalid); each symbol sets the outcome and runs provider.watchChanges for that endpoint; one more polling round " +
+		"connection refused, timeout; processor failure; endpoint 2: 200 new, 404, invalid; the empty and the invalid bodies rotate over doc_members_empty / doc_members_invalid as a function of the sequence); each symbol sets the outcome and runs provider.watchChanges for that endpoint; one more polling round " +
 		"at the end (longest length: 10 of the 13 symbols); plus seeded sequences against the real scheduler loop (newProvider with watch_interval, Start). Oracle: vfDecide per poll on the outcome served, active rule sets = " +
 		"latest valid content of existing endpoints at the end. Non-trivial: >=2 successful processor calls.")
 	r.Assume("http.DefaultTransport is wrapped in the test binary only to turn a scripted refused/timeout outcome into a real dial error (bound, non-listening loopback port / elapsed deadline)",
-		"outcome mapping: refused/timeout = source still exists (previous kept); 404 = gone (unloaded); empty body = unloaded; 500 and unsupported content type are generated but not asserted",
+		"outcome mapping: refused/timeout = source still exists (previous kept); 404 = gone (unloaded); empty body (no rule set in it) = unloaded; 500 and unsupported content type are generated but not asserted",
 		"responses carry no cache headers, so the (enabled) HTTP cache never answers")
 
 	script := &vfhScript{outcomes: map[string]*vfhOutcome{}}
@@ -336,6 +356,7 @@ func TestC18(t *testing.T) {
 		r.End()
 	}
 	http.DefaultTransport = &vfhTransport{real: http.DefaultTransport, script: script, refused: refused}
+	vfInitDocs(r)
 
 	if prov, mode, names, _, ok := vfReplayCase(r); ok {
 		if seq, known := vfSymbols(names, vfhNames[:]); prov == "http_endpoint" && known {
@@ -445,6 +466,7 @@ func vfhDirect(r *core.Run, script *vfhScript, baseURL string) {
 func vfhRunDirect(r *core.Run, ctx context.Context, w *vfhWorld, seq []int, st *vfStats) (int, bool) {
 	rec := vfNewRecorder()
 	o := vfNewOracle(st)
+	w.salt, w.st = vfDocSalt(seq, 0), st
 	p := &provider{p: rec, l: zerolog.Nop(), configured: true}
 	step := 0
 	poll := func(l, action string) {
@@ -479,7 +501,7 @@ func vfhRunDirect(r *core.Run, ctx context.Context, w *vfhWorld, seq []int, st *
 	}
 	truth := map[string]vfState{"e1": w.state("e1"), "e2": w.state("e2")}
 	o.final(step+1, truth, rec.snapshot(), &vfStep{Classify: vfhClassify, Generic: vfGenericHTTP})
-	bad := o.report(r, "http_endpoint", "direct", vfhSeqNames(seq), "")
+	bad := o.report(r, "http_endpoint", "direct", vfhSeqNames(seq), fmt.Sprintf(" docs=%v", w.docs))
 	return o.nOK, bad
 }
 
@@ -520,7 +542,8 @@ func vfhPoll(r *core.Run, script *vfhScript, baseURL string) {
 
 func vfhRunPoll(r *core.Run, script *vfhScript, baseURL string, n int, seq []int, st *vfStats) (int, bool) {
 	p1, p2 := vfhPaths("poll", n)
-	w := &vfhWorld{script: script, tag: fmt.Sprintf("p%d-", n), eps: map[string]*vfhEndpointState{"e1": {path: p1}, "e2": {path: p2}}}
+	w := &vfhWorld{script: script, tag: fmt.Sprintf("p%d-", n), eps: map[string]*vfhEndpointState{"e1": {path: p1}, "e2": {path: p2}},
+		salt: vfDocSalt(seq, 1), st: st}
 	w.eps["e1"].cur, w.eps["e2"].cur = vfhOutcome{kind: vfh404}, vfhOutcome{kind: vfh404}
 	script.set(p1, w.eps["e1"].cur)
 	script.set(p2, w.eps["e2"].cur)
@@ -593,6 +616,6 @@ func vfhRunPoll(r *core.Run, script *vfhScript, baseURL string, n int, seq []int
 	}
 	truth := map[string]vfState{"e1": w.state("e1"), "e2": w.state("e2")}
 	o.final(step+1, truth, rec.snapshot(), &vfStep{Classify: vfhClassify, Generic: vfGenericHTTP})
-	o.report(r, "http_endpoint", "poll", vfhSeqNames(seq), "")
+	o.report(r, "http_endpoint", "poll", vfhSeqNames(seq), fmt.Sprintf(" docs=%v", w.docs))
 	return o.nOK, true
 }
